@@ -1116,6 +1116,20 @@ pub fn run(tier: &str, seed: u64, only: Option<&str>) -> Run {
             maps.push((format!("corner-{name}-{}", mode_name(mode)), spec.render(), mode));
         }
     }
+    // permanent cases of the known finding `curve-nan-vertex` (C05: catch panics) and of the osu!-mode
+    // NaN vertex of `calculate_length` (docs/delivery-CURVE.md, O2 / O3): the curve of the middle slider
+    // has NaN vertices. Every calculator that does not panic must still produce finite, non-negative
+    // outputs on them (osu!, taiko, mania absorb the NaN; the catch panic is counted as
+    // `difficulty:panic(C05)` here and is C05's finding).
+    {
+        let head = |version: u32, mode: u8| format!("osu file format v{version}\n\n[General]\nMode: {mode}\n\n[Difficulty]\nHPDrainRate:5\nCircleSize:4\nOverallDifficulty:5\nApproachRate:5\nSliderMultiplier:1.4\nSliderTickRate:1\n\n[TimingPoints]\n0,500,4,2,0,100,1,0\n\n[HitObjects]\n");
+        let around = |slider: &str| format!("100,100,1000,1,0\n{slider}\n300,200,2300,1,0\n200,300,2700,1,0\n250,100,3100,2,0,L|350:100,1,100\n100,300,3500,1,0\n");
+        for mode in [0u8, 2] {
+            maps.push((format!("curve-nan-vertex-arc-{}", mode_name(mode)), head(14, mode) + &around("0,0,1500,2,0,L|10:0|P|3244:-2736|3225:104|3208:2645,2,300"), mode));
+        }
+        maps.push(("curve-nan-vertex-catmull-osu".to_owned(), head(9, 0) + &around("100,100,1500,2,0,C|100:100|100:100|150:100,2,7"), 0));
+        maps.push(("curve-nan-vertex-catmull-osu-stacked".to_owned(), head(9, 0) + &around("300,200,1500,2,0,C|300:200|300:200|360:200,3,3"), 0));
+    }
     let n_random = if thorough { 1200 } else { 60 };
     for i in 0..n_random {
         let mode = (i % 4) as u8;
